@@ -7,3 +7,32 @@ pub fn fixture(rel: &str) -> Vec<u8> {
     let p = format!("{}/tests/{}", REPO, rel);
     std::fs::read(&p).unwrap_or_else(|e| panic!("machinery: cannot read fixture {}: {}", p, e))
 }
+
+use allsorts::binary::read::ReadScope;
+use allsorts::font::MatchingPresentation;
+use allsorts::font_data::FontData;
+use allsorts::tables::FontTableProvider;
+use allsorts::Font;
+
+/// Load a font from bytes and run `f` on it (index 0).
+pub fn with_font<R>(data: &[u8], f: impl FnOnce(&mut Font<allsorts::font_data::DynamicFontTableProvider<'_>>) -> R) -> Result<R, String> {
+    let fd = ReadScope::new(data).read::<FontData<'_>>().map_err(|e| format!("FontData: {:?}", e))?;
+    let provider = fd.table_provider(0).map_err(|e| format!("table_provider: {:?}", e))?;
+    let mut font = Font::new(provider).map_err(|e| format!("Font::new: {:?}", e))?;
+    Ok(f(&mut font))
+}
+
+pub fn selftest() {
+    let data = otmodel::tables::minimal_font(4, &[(0x41, 1), (0x42, 2), (0x1F600, 3)], &[]);
+    assert!(otmodel::sfnt::validate(&data).is_empty(), "{:?}", otmodel::sfnt::validate(&data));
+    let r = with_font(&data, |font| {
+        let a = font.lookup_glyph_index('A', MatchingPresentation::NotRequired, None).0;
+        let e = font.lookup_glyph_index('\u{1F600}', MatchingPresentation::NotRequired, None).0;
+        let z = font.lookup_glyph_index('Z', MatchingPresentation::NotRequired, None).0;
+        let adv = font.horizontal_advance(2);
+        let _ = font.font_table_provider.has_table(allsorts::tag::GLYF);
+        (a, e, z, adv)
+    });
+    println!("selftest: {:?}", r);
+    assert_eq!(r, Ok((1, 3, 0, Some(520))));
+}
